@@ -33,6 +33,9 @@ pub enum RrdpOutcome {
     FailedCurrent,
     FailedExpired,
     FailedNoCopy,
+    /// failed, with a copy that had expired but was then confirmed by a successful no-change update
+    /// (same serial: 200 or 304) right before the failure — such a copy is current again
+    FailedRefreshed,
 }
 
 #[derive(Serialize, Deserialize, Clone, Copy, Debug, PartialEq, Eq)]
@@ -67,7 +70,7 @@ pub fn expected(c: &Case) -> Transport {
     }
     match c.outcome {
         RrdpOutcome::Updated => Transport::Rrdp,
-        RrdpOutcome::FailedCurrent => Transport::Nothing,
+        RrdpOutcome::FailedCurrent | RrdpOutcome::FailedRefreshed => Transport::Nothing,
         RrdpOutcome::FailedExpired => {
             if c.policy == Policy::Stale {
                 rsync
@@ -113,7 +116,7 @@ fn config_for(c: &Case, dir: &std::path::Path, srv: &HttpsServer, prepare: bool)
         Policy::Stale => FallbackPolicy::Stale,
         Policy::New => FallbackPolicy::New,
     };
-    if c.outcome == RrdpOutcome::FailedExpired {
+    if c.outcome == RrdpOutcome::FailedExpired || (c.outcome == RrdpOutcome::FailedRefreshed && prepare) {
         config.refresh = Duration::from_secs(1);
         config.rrdp_fallback_time = Duration::from_secs(1);
     } else {
@@ -139,7 +142,7 @@ fn prepare(case: &Case, srv: &HttpsServer) -> Cell {
     std::fs::create_dir_all(&moddir).unwrap();
     std::fs::write(moddir.join("obj.roa"), b"rsync copy of the object").unwrap();
     let mut cell = Cell { case: case.clone(), dir, server, prepared_at: None, prep_error: None };
-    if matches!(case.outcome, RrdpOutcome::FailedCurrent | RrdpOutcome::FailedExpired) {
+    if matches!(case.outcome, RrdpOutcome::FailedCurrent | RrdpOutcome::FailedExpired | RrdpOutcome::FailedRefreshed) {
         // an earlier successful update creates the local copy
         cell.server.install(srv);
         let config = config_for(case, cell.dir.path(), srv, true);
@@ -171,6 +174,38 @@ fn judge(cell: &Cell, srv: &HttpsServer, info: &mut CaseInfo) -> Verdict {
         return Verdict::Dropped(format!("prepare:{}", e));
     }
     let host = rrdp_host(c);
+    if c.outcome == RrdpOutcome::FailedRefreshed {
+        // the copy made under refresh = fallback-time = 1 s has expired by now (shared wait); a successful
+        // update that finds nothing new must make it current again
+        if let Some(t) = cell.prepared_at {
+            if t.elapsed() < Duration::from_millis(3000) {
+                return Verdict::Dropped("expiry_wait_too_short".into());
+            }
+        }
+        let config = config_for(c, cell.dir.path(), srv, false);
+        let mut config = config;
+        config.disable_rrdp = false;
+        config.disable_rsync = true;
+        match archive_state(&config, &cell.server.notify_uri()) {
+            Ok(Some(st)) if st.is_expired() => {}
+            Ok(Some(_)) => return Verdict::Dropped("precondition_copy_not_expired_before_refresh".into()),
+            _ => return Verdict::Dropped("precondition_no_copy".into()),
+        }
+        cell.server.install(srv);
+        let ca = ta_ca_cert(2, &ca_repo(c), Some(&cell.server.notify_uri()));
+        let refreshed = (|| {
+            let mut collector = Collector::new(&config).map_err(|_| "collector")?;
+            collector.ignite().map_err(|_| "ignite")?;
+            let run = collector.start();
+            match run.repository(&ca) {
+                Ok(Some(r)) if r.is_rrdp() => Ok(()),
+                _ => Err("refresh update did not succeed"),
+            }
+        })();
+        if let Err(e) = refreshed {
+            return Verdict::Dropped(format!("prepare:{}", e));
+        }
+    }
     // script the server for the run under test
     match c.outcome {
         RrdpOutcome::Updated => {
@@ -210,6 +245,7 @@ fn judge(cell: &Cell, srv: &HttpsServer, info: &mut CaseInfo) -> Verdict {
     let config = config_for(c, cell.dir.path(), srv, false);
     // precondition check through routinator's own state record
     if matches!(c.outcome, RrdpOutcome::FailedCurrent | RrdpOutcome::FailedExpired) {
+        // (not for FailedRefreshed: whether the refresh made the copy current again is what is judged)
         match archive_state(&config, &cell.server.notify_uri()) {
             Ok(Some(st)) => {
                 let expired = st.is_expired();
@@ -276,14 +312,14 @@ fn label(words: &mut impl Iterator<Item = String>) -> String {
 
 fn all_cases(ctx: &Ctx, variations: usize) -> Vec<Case> {
     use proptest::prelude::*;
-    let n = 96 * variations * 4;
+    let n = 120 * variations * 4;
     let strat = "[a-z][a-z0-9]{0,7}(-[a-z0-9]{1,4})?";
     let mut words = sample_strategy(&strat.prop_map(|s: String| s), ctx.seed_for("names"), n).into_iter();
     let mut res = Vec::new();
     let mut k = 0u32;
     for v in 0..variations as u32 {
         for policy in [Policy::Never, Policy::Stale, Policy::New] {
-            for outcome in [RrdpOutcome::Updated, RrdpOutcome::FailedCurrent, RrdpOutcome::FailedExpired, RrdpOutcome::FailedNoCopy] {
+            for outcome in [RrdpOutcome::Updated, RrdpOutcome::FailedCurrent, RrdpOutcome::FailedExpired, RrdpOutcome::FailedNoCopy, RrdpOutcome::FailedRefreshed] {
                 for rrdp_on in [true, false] {
                     for rsync_on in [true, false] {
                         for has_notify in [true, false] {
@@ -315,8 +351,9 @@ fn run_cells(ctx: &Ctx, rep: &mut Report, cases: &[Case]) {
     let srv = HttpsServer::start();
     let mut cells: Vec<Cell> = cases.iter().map(|c| prepare(c, &srv)).collect();
     // the one wait that lets the refresh=1s copies expire (best-before is at most 2 s after the update)
-    if cells.iter().any(|c| c.case.outcome == RrdpOutcome::FailedExpired) {
-        let newest = cells.iter().filter(|c| c.case.outcome == RrdpOutcome::FailedExpired).filter_map(|c| c.prepared_at).max();
+    let expiring = |o: RrdpOutcome| matches!(o, RrdpOutcome::FailedExpired | RrdpOutcome::FailedRefreshed);
+    if cells.iter().any(|c| expiring(c.case.outcome)) {
+        let newest = cells.iter().filter(|c| expiring(c.case.outcome)).filter_map(|c| c.prepared_at).max();
         if let Some(t) = newest {
             let need = Duration::from_millis(3500);
             if t.elapsed() < need {
@@ -336,7 +373,7 @@ fn run_cells(ctx: &Ctx, rep: &mut Report, cases: &[Case]) {
 }
 
 pub fn run(ctx: &Ctx, rep: &mut Report, replay: Option<&serde_json::Value>) {
-    rep.rule("exhaustive product policy{never,stale,new} x RRDP outcome{updated, failed+current copy, failed+expired copy, failed+no copy} x rrdp{on,off} x rsync{on,off} x CA{with,without rpkiNotify} = 96 cells, each with generated host/module/path names and one of four failure modes (500, 404, connection drop on the notification; new-session notification whose snapshot is 404); copies made by a real earlier update, expiry by refresh=1s + rrdp-fallback-time=1s and one shared 3.5 s wait (precondition re-read from routinator's own state record); observed: Run::repository result (is_rrdp / rsync / None), fake-rsync invocation log, HTTPS request log, bytes of the object read through the handed-out repository; every cell is non-trivial; distinct by cell + names");
+    rep.rule("exhaustive product policy{never,stale,new} x RRDP outcome{updated, failed+current copy, failed+expired copy, failed+no copy, failed+copy that expired and was then confirmed by a successful no-change update} x rrdp{on,off} x rsync{on,off} x CA{with,without rpkiNotify} = 120 cells, each with generated host/module/path names and one of four failure modes (500, 404, connection drop on the notification; new-session notification whose snapshot is 404); copies made by a real earlier update, expiry by refresh=1s + rrdp-fallback-time=1s and one shared 3.5 s wait (precondition re-read from routinator's own state record); observed: Run::repository result (is_rrdp / rsync / None), fake-rsync invocation log, HTTPS request log, bytes of the object read through the handed-out repository; every cell is non-trivial; distinct by cell + names");
     rep.assume("expected transport = table of the property statement and manual page (--rrdp-fallback); fake rsync transport (rvrsync) and in-harness HTTPS server are faithful");
     if let Some(v) = replay {
         let t: Tagged<Case> = serde_json::from_value(v.clone()).expect("replay");
